@@ -147,6 +147,22 @@ theorem success_iff_granted {cfg : Cfg} (hg : GoodCfg cfg) (oracle : Nat → Nat
   | refusedCut => rw [hv] at h; simp only [Meets, refOf] at h; rcases h with h | h <;> simp [h]
   | bad => rw [hv] at h; simp only [Meets, refOf] at h; simp [h]
 
+/-- **Converse directions**: `SOCKSFailure` is raised only on a refusal (complete, or an RFC 1928
+    refusal header cut short); `SOCKSProtocolError` only on a malformed / truncated stream (or
+    such a cut-short refusal). -/
+theorem failure_only_if_refused {cfg : Cfg} (hg : GoodCfg cfg) (oracle : Nat → Nat)
+    (stream : Bytes) (idx : Nat) :
+    ((handshake oracle (Client.init cfg) ⟨stream, idx⟩).outcome = some .socksFailure →
+      verdictFor cfg stream = .refused ∨ verdictFor cfg stream = .refusedCut) ∧
+    ((handshake oracle (Client.init cfg) ⟨stream, idx⟩).outcome = some .socksProtocolError →
+      verdictFor cfg stream = .bad ∨ verdictFor cfg stream = .refusedCut) := by
+  have h := outcome_spec hg oracle stream idx
+  cases hv : verdictFor cfg stream with
+  | granted n => rw [hv] at h; simp only [Meets, refOf] at h; simp [h.1]
+  | refused => rw [hv] at h; simp only [Meets, refOf] at h; simp [h]
+  | refusedCut => simp
+  | bad => rw [hv] at h; simp only [Meets, refOf] at h; simp [h]
+
 /-- **No other exception**: whatever the proxy sends and however it is segmented, the
     handshake returns, raises `SOCKSFailure` or raises `SOCKSProtocolError`. -/
 theorem no_other_exception {cfg : Cfg} (hg : GoodCfg cfg) (oracle : Nat → Nat) (stream : Bytes)
